@@ -563,7 +563,11 @@ func run(tier string, sh *vkit.Shard, p *vkit.Part) {
 			p.Incompletef("wall-clock cap reached before item %q", c.name())
 			return
 		}
+		p.SetCurrent("c12", c)
 		done, pan := wsgen.RunWatched(120*time.Second, func() { runItem(tier, c, p, seqPart) })
+		if dp := vkit.TakeDoublePuts(); len(dp) > 0 {
+			p.Report("pool-double-put type="+dp[0], "an object that is already in a sync.Pool was put into it again while this case ran: two connections would later be handed the same object and corrupt each other's messages ["+c.name()+"]", "c12", c)
+		}
 		if !done {
 			p.Report("hang", "a case did not finish within 120 s ["+c.name()+"]", "c12", c)
 			stopped = true
